@@ -21,7 +21,10 @@ CAppCfg == [a \in ToSet(P.appOrder) |-> [P.apps[a] EXCEPT !.peers = ToSet(@), !.
 CMaxConn == P.maxConn
 CPinned == ToSet(P.pinned)
 
-FromJson(m) == [m EXCEPT !.auth = ToSet(@), !.acct = ToSet(@)]
+\* Diameter identities are compared case-insensitively (RFC 6733 4.3.1): the instance parameters list the other spellings the
+\* environment uses for the configured peers (P.canon: spelling |-> configured name); the model works on configured names
+Canon(h) == IF "canon" \in DOMAIN P /\ h \in DOMAIN P.canon THEN P.canon[h] ELSE h
+FromJson(m) == [m EXCEPT !.auth = ToSet(@), !.acct = ToSet(@), !.oh = Canon(@)]
 RECURSIVE MsgsFromJson(_)
 MsgsFromJson(ms) == IF ms = <<>> THEN <<>> ELSE <<FromJson(Head(ms))>> \o MsgsFromJson(Tail(ms))
 
